@@ -234,6 +234,35 @@ func (k *btr) loopBody(label string, b *ast.BlockStmt) string {
 	return s
 }
 
+func (k *btr) switchChain(cs []ast.Stmt) (string, bool) {
+	if len(cs) == 0 {
+		return ".skip", true
+	}
+	cc, ok := cs[0].(*ast.CaseClause)
+	if !ok {
+		return "", false
+	}
+	for _, st := range cc.Body {
+		if b, ok := st.(*ast.BranchStmt); ok && (b.Tok == token.FALLTHROUGH || b.Tok == token.BREAK) {
+			return "", false
+		}
+	}
+	if cc.List == nil { // default
+		if len(cs) != 1 {
+			return "", false
+		}
+		return k.seq(cc.Body), true
+	}
+	if len(cc.List) != 1 {
+		return "", false
+	}
+	rest, ok := k.switchChain(cs[1:])
+	if !ok {
+		return "", false
+	}
+	return "(.ite " + k.expr(cc.List[0]) + "\n " + k.seq(cc.Body) + "\n " + rest + ")", true
+}
+
 func (k *btr) unknownStmt(s ast.Stmt) string { return "(.unknown " + k.src(s) + ")" }
 
 func (k *btr) stmt(s ast.Stmt) string { return k.stmtL("", s) }
@@ -321,6 +350,15 @@ func (k *btr) stmtL(label string, s ast.Stmt) string {
 			}
 		}
 		return "(.ite " + k.expr(v.Cond) + "\n " + k.block(v.Body) + "\n " + els + ")"
+	case *ast.SwitchStmt:
+		// a tagless switch whose cases have one condition each and whose default (if any) comes last is an if / else-if chain
+		if v.Init != nil || v.Tag != nil {
+			break
+		}
+		out, ok := k.switchChain(v.Body.List)
+		if ok {
+			return out
+		}
 	case *ast.ForStmt:
 		if v.Init != nil || v.Post != nil || v.Cond == nil {
 			break
